@@ -45,8 +45,8 @@ MOD = "mcverif.checks.c04"
 # Explored: every history of length n whose operations all belong to the level-n alphabet
 # (each operation at most once per history).
 LEVELS = {
-    "quick": {"hex3pins": ["FULL", "SUB2"], "hexfullcu": ["FULL"], "cartq": ["FULL", "SUB2"], "cartfull": ["FULL"], "trz": ["FULL"]},
-    "thorough": {"hex3pins": ["FULL", "FULL", "SUB3"], "hexfullcu": ["FULL", "FULL"], "cartq": ["FULL", "FULL"], "cartfull": ["FULL", "FULL"], "trz": ["FULL", "FULL"]},
+    "quick": {"hex3pins": ["FULL", "SUB2"], "hexfullcu": ["FULL"], "cartq": ["FULL", "SUB2"], "cartfull": ["FULL"], "trz": ["FULL"], "hexmany": ["SUB3"]},
+    "thorough": {"hex3pins": ["FULL", "FULL", "SUB3"], "hexfullcu": ["FULL", "FULL"], "cartq": ["FULL", "FULL"], "cartfull": ["FULL", "FULL"], "trz": ["FULL", "FULL"], "hexmany": ["FULL", "SUB3"]},
 }
 MAX_STATES = {"quick": None, "thorough": None}
 
